@@ -1,8 +1,10 @@
 (* C01: conservation of request tokens in the fixed lifecycle model.
 
    Every token handed to an entry point is, at any time, exactly one of: delivered (its callback
-   has been invoked), held by a linked query (through its callback closure), or carried by a
-   function that is running (in a closure argument).  Tokens of requests that callbacks will
+   has been invoked), held by a linked query (through its callback closure), held by a shared
+   host_query state (the callback of a getaddrinfo/gethostbyname request whose queries are
+   outstanding), or carried by a function that is running (in a closure argument or in a
+   host_query state it is working on).  Tokens of requests that callbacks will
    make later (pending scripts) are all different from those.  TokInv s RC RF states this for
    state s, the requested tokens RC carried by the running functions and the not yet requested
    tokens RF carried by them. *)
@@ -11,6 +13,9 @@ Import ListNotations.
 From CAres.Base Require Import Outcome.
 From CAres.Gen Require Import Consts.
 From CAres.Core Require Import LifecycleMonitor Lifecycle Lifecycle_inv.
+
+(* rearrangements of concatenations of token lists *)
+Ltac perm_ac := apply (Permutation_count_occ Nat.eq_dec); let x := fresh "x" in intros x; rewrite ?count_occ_app; lia.
 
 Definition cb_toks (tr : list event) : list tok := flat_map (fun e => match e with EvCb t _ => [t] | _ => [] end) tr.
 Definition req_toks (tr : list event) : list tok := flat_map (fun e => match e with EvReq t => [t] | _ => [] end) tr.
@@ -28,7 +33,12 @@ Definition futr (s : state) : list tok := flat_map (fun p => calls_toks (snd p))
 
 Definition qtoks (s : state) (qo : obj) : list tok :=
   match cell_of s qo with Some (CQuery q) => ctoks (q_cb q) | _ => [] end.
-Definition held (s : state) : list tok := flat_map (qtoks s) (linked s).
+Definition qheld (s : state) : list tok := flat_map (qtoks s) (linked s).
+(* tokens of the application callbacks stored in shared host_query states *)
+Definition htoks (s : state) (o : obj) : list tok :=
+  match shared_at s o with Some h => ctoks (h_cb h) | None => [] end.
+Definition hheld (s : state) : list tok := flat_map (htoks s) (seq 0 (st_next s)).
+Definition held (s : state) : list tok := qheld s ++ hheld s.
 
 (* the trace so far (stored reversed) satisfies at_most_once *)
 Definition amo (s : state) : Prop := at_most_once (rev (st_trace s)).
@@ -128,8 +138,8 @@ Proof.
   - unfold reqd, futr. simpl. fold (reqd s). fold (futr s).
     eapply Permutation_NoDup; [|exact H1].
     rewrite !app_assoc. symmetry. apply Permutation_cons_app. reflexivity.
-  - unfold reqd, deliv, held. simpl. fold (reqd s). fold (deliv s).
-    change (flat_map (qtoks (set_trace (EvReq t :: st_trace s) s)) (linked (set_trace (EvReq t :: st_trace s) s))) with (held s).
+  - unfold reqd, deliv. simpl. fold (reqd s). fold (deliv s).
+    change (held (set_trace (EvReq t :: st_trace s) s)) with (held s).
     rewrite H2. rewrite !app_assoc. apply Permutation_cons_app. reflexivity.
   - unfold amo. simpl. apply amo_snoc_other; auto. intros; discriminate.
 Qed.
@@ -141,8 +151,8 @@ Proof.
   intros [H1 H2 H3 H4 H5]. constructor; [| | |exact H4|].
   4: { simpl. intros e [<-|He]; [split; discriminate|auto]. }
   - exact H1.
-  - unfold reqd, deliv, held. simpl. fold (reqd s). fold (deliv s).
-    change (flat_map (qtoks (set_trace (EvCb t st :: st_trace s) s)) (linked (set_trace (EvCb t st :: st_trace s) s))) with (held s).
+  - unfold reqd, deliv. simpl. fold (reqd s). fold (deliv s).
+    change (held (set_trace (EvCb t st :: st_trace s) s)) with (held s).
     rewrite H2. rewrite !app_assoc. symmetry. apply Permutation_cons_app. reflexivity.
   - unfold amo. simpl. apply amo_snoc_cb; auto.
     rewrite count_cb_rev, count_req_rev.
@@ -231,50 +241,61 @@ Proof.
   - exists [], s. split; [reflexivity|]. split; [|split; reflexivity]. constructor; auto.
 Qed.
 
-(* a callback closure of every live query cell is kept *)
+(* shared host_query states unchanged => their tokens unchanged *)
+Lemma hheld_same s s' :
+  heap_ok s -> st_next s <= st_next s' -> (forall o, shared_at s' o = shared_at s o) -> hheld s' = hheld s.
+Proof.
+  intros Hh Hn Hs. unfold hheld.
+  replace (st_next s') with (st_next s + (st_next s' - st_next s)) by lia.
+  rewrite seq_app, flat_map_app. rewrite (flat_map_nil _ (seq (0 + st_next s) _)).
+  - rewrite app_nil_r. apply flat_map_ext. intros o. unfold htoks. rewrite Hs. reflexivity.
+  - intros o Ho. apply in_seq in Ho. unfold htoks. rewrite Hs.
+    destruct (shared_at s o) as [h|] eqn:E; auto. pose proof (shared_lt _ _ _ Hh E). lia.
+Qed.
+
+Lemma hheld_upd s s' o :
+  o < st_next s -> st_next s' = st_next s ->
+  (forall o', o' <> o -> shared_at s' o' = shared_at s o') ->
+  exists A B, hheld s = A ++ htoks s o ++ B /\ hheld s' = A ++ htoks s' o ++ B.
+Proof.
+  intros Ho En Hs.
+  exists (flat_map (htoks s) (seq 0 o)), (flat_map (htoks s) (seq (S o) (st_next s - S o))).
+  assert (Eseq : seq 0 (st_next s) = seq 0 o ++ o :: seq (S o) (st_next s - S o)).
+  { replace (st_next s) with (o + S (st_next s - S o)) at 1 by lia. rewrite seq_app. reflexivity. }
+  split.
+  - unfold hheld. rewrite Eseq, flat_map_app. reflexivity.
+  - unfold hheld. rewrite En, Eseq, flat_map_app. simpl. f_equal; [|f_equal].
+    + apply flat_map_ext_in'. intros a Ha. apply in_seq in Ha. unfold htoks. rewrite Hs; auto. lia.
+    + apply flat_map_ext_in'. intros a Ha. apply in_seq in Ha. unfold htoks. rewrite Hs; auto. lia.
+Qed.
+
+(* a callback closure of every live query cell is kept; the shared host_query states are the same *)
 Definition cb_pres (s s' : state) : Prop :=
-  forall o q0, cell_of s o = Some (CQuery q0) -> exists q1, cell_of s' o = Some (CQuery q1) /\ q_cb q1 = q_cb q0.
+  (forall o q0, cell_of s o = Some (CQuery q0) -> exists q1, cell_of s' o = Some (CQuery q1) /\ q_cb q1 = q_cb q0)
+  /\ (forall o, shared_at s' o = shared_at s o) /\ st_next s <= st_next s'.
 
 Lemma held_cb_pres x s s' : InvX x s -> linked s' = linked s -> cb_pres s s' -> held s' = held s.
 Proof.
-  intros I El Hp. unfold held. rewrite El. apply flat_map_ext_in'. intros qo Hq.
-  destruct (inv_query _ _ I _ Hq) as [q [Hc _]]. destruct (Hp _ _ Hc) as [q1 [Hc1 E]].
-  unfold qtoks. rewrite Hc, Hc1, E. reflexivity.
+  intros I El [Hp [Hs Hn]]. unfold held. f_equal.
+  - unfold qheld. rewrite El. apply flat_map_ext_in'. intros qo Hq.
+    destruct (inv_query _ _ I _ Hq) as [q Hc]. destruct (Hp _ _ Hc) as [q1 [Hc1 E]].
+    unfold qtoks. rewrite Hc, Hc1, E. reflexivity.
+  - apply hheld_same; auto. exact (inv_heap _ _ I).
 Qed.
 
-Lemma cb_pres_same s s' : (forall o q, cell_of s o = Some (CQuery q) -> cell_of s' o = Some (CQuery q)) -> cb_pres s s'.
-Proof. intros H o q Hc. exists q. split; auto. Qed.
+(* cells that differ at most in connections and the index fields of queries *)
+Lemma cb_pres_sim s s' : st_next s <= st_next s' -> (forall o, cell_sim (cell_of s o) (cell_of s' o)) -> cb_pres s s'.
+Proof.
+  intros Hn Hs. destruct (sim_views _ _ Hs) as [Hha _]. split; [|split; [apply shared_of_host_at; exact Hha|exact Hn]].
+  intros o q0 Hc. specialize (Hs o). rewrite Hc in Hs. unfold cell_sim in Hs.
+  destruct (cell_of s' o) as [[q1|c1|h1|]|]; try destruct Hs. exists q1. auto.
+Qed.
 
 Lemma cb_pres_trans s1 s2 s3 : cb_pres s1 s2 -> cb_pres s2 s3 -> cb_pres s1 s3.
 Proof.
-  intros H1 H2 o q Hc. destruct (H1 _ _ Hc) as [q1 [Hc1 E1]]. destruct (H2 _ _ Hc1) as [q2 [Hc2 E2]].
+  intros [H1 [G1 N1]] [H2 [G2 N2]]. split; [|split; [intros o; rewrite G2; apply G1|lia]].
+  intros o q Hc. destruct (H1 _ _ Hc) as [q1 [Hc1 E1]]. destruct (H2 _ _ Hc1) as [q2 [Hc2 E2]].
   exists q2. split; auto. congruence.
-Qed.
-
-Lemma cb_pres_alloc c s : heap_ok s -> cb_pres s (alloc_st c s).
-Proof.
-  intros Hh. apply cb_pres_same. intros o q Hc. rewrite cell_alloc.
-  pose proof (live_lt _ _ _ Hh Hc). destruct (Nat.eqb o (st_next s)) eqn:E; auto.
-  apply Nat.eqb_eq in E. lia.
-Qed.
-
-Lemma cb_pres_free o s : (forall q, cell_of s o <> Some (CQuery q)) -> cb_pres s (free_st o s).
-Proof.
-  intros Hn. apply cb_pres_same. intros o' q Hc. rewrite cell_free.
-  destruct (Nat.eqb o' o) eqn:E; auto. apply Nat.eqb_eq in E. subst. exfalso. eapply Hn; eauto.
-Qed.
-
-Lemma cb_pres_store_other o c s : (forall q, cell_of s o <> Some (CQuery q)) -> cb_pres s (store_st o c s).
-Proof.
-  intros Hn. apply cb_pres_same. intros o' q Hc. rewrite cell_store.
-  destruct (Nat.eqb o' o) eqn:E; auto. apply Nat.eqb_eq in E. subst. exfalso. eapply Hn; eauto.
-Qed.
-
-Lemma cb_pres_store_query o q q' s : cell_of s o = Some (CQuery q) -> q_cb q' = q_cb q -> cb_pres s (store_st o (CQuery q') s).
-Proof.
-  intros Hq E o' q0 Hc. rewrite cell_store. destruct (Nat.eqb o' o) eqn:E'.
-  - apply Nat.eqb_eq in E'. subst. rewrite Hq in Hc. inversion Hc; subst. exists q'. auto.
-  - exists q0. auto.
 Qed.
 
 (* held after the two operations that move closures between the stack and the indexes *)
@@ -291,19 +312,26 @@ Qed.
 Lemma strip_query qo o s q : cell_of s o = Some (CQuery q) -> option_map (strip qo) (cell_of s o) = Some (CQuery q).
 Proof. intros H. rewrite H. reflexivity. Qed.
 
+Lemma strip_sim s s1 qo q q1 : cell_of s qo = Some (CQuery q) -> q_cb q1 = q_cb q ->
+  (forall o, cell_of s1 o = if Nat.eqb o qo then Some (CQuery q1) else option_map (strip qo) (cell_of s o)) ->
+  forall o, cell_sim (cell_of s o) (cell_of s1 o).
+Proof.
+  intros Hq E Hc1 o. rewrite Hc1. destruct (Nat.eqb o qo) eqn:Eo.
+  - apply Nat.eqb_eq in Eo. subst. rewrite Hq. exact E.
+  - apply cell_sim_strip.
+Qed.
+
 Lemma tokinv_remove_from_conn x s qo q RC RF :
   InvX x s -> (x = None \/ x = Some qo) -> In qo (linked s) -> cell_of s qo = Some (CQuery q) ->
   forall s', remove_from_conn qo s = Ok (tt, s') -> TokInv s RC RF -> TokInv s' RC RF.
 Proof.
   intros I Hx Hl Hq s' E T.
-  destruct (remove_from_conn_ok _ _ _ _ I Hx Hl Hq) as [s1 [E1 [I1 [F1 [El [_ [_ [_ [Etr [Esc [_ [_ [_ [_ Hc1]]]]]]]]]]]]]].
+  destruct (remove_from_conn_ok _ _ _ _ I Hx Hl Hq) as [s1 [E1 [I1 [F1 [El [_ [_ [_ [Etr [Esc [_ [En [_ [_ Hc1]]]]]]]]]]]]]].
   rewrite E in E1. inversion E1; subst s1.
   apply (tokinv_same s s'); auto.
   apply (held_cb_pres x s s' I).
   - unfold linked. rewrite El. reflexivity.
-  - intros o q0 Ho. rewrite Hc1. destruct (Nat.eqb o qo) eqn:Eo.
-    + apply Nat.eqb_eq in Eo. subst. rewrite Hq in Ho. inversion Ho; subst. eexists. split; [reflexivity|reflexivity].
-    + exists q0. rewrite Ho. auto.
+  - apply cb_pres_sim; [rewrite En; lia|]. apply (strip_sim s s' qo q (set_q_conn None q)); auto.
 Qed.
 
 Lemma tokinv_detach x s qo q RC RF :
@@ -316,25 +344,27 @@ Proof.
   assert (Ell : linked s' = remove_nat qo (linked s)).
   { unfold linked. rewrite Els. apply concat_map_remove. }
   assert (Hqt : forall o, o <> qo -> In o (linked s) -> qtoks s' o = qtoks s o).
-  { intros o Hne Ho. destruct (inv_query _ _ I _ Ho) as [q0 [Hq0 _]]. unfold qtoks. rewrite Hc1.
+  { intros o Hne Ho. destruct (inv_query _ _ I _ Ho) as [q0 Hq0]. unfold qtoks. rewrite Hc1.
     apply Nat.eqb_neq in Hne. rewrite Hne, Hq0. reflexivity. }
-  assert (P : Permutation (held s) (ctoks (q_cb q) ++ held s')).
-  { unfold held. rewrite (held_split (qtoks s) qo (linked s) (inv_nodup _ _ I) Hl).
+  assert (P : Permutation (qheld s) (ctoks (q_cb q) ++ qheld s')).
+  { unfold qheld. rewrite (held_split (qtoks s) qo (linked s) (inv_nodup _ _ I) Hl).
     unfold qtoks at 1. rewrite Hq. apply Permutation_app_head. rewrite Ell.
     erewrite flat_map_ext_in'; [reflexivity|]. intros o Ho. apply in_remove_nat in Ho. destruct Ho as [Ho Hne].
     symmetry. apply Hqt; auto. }
+  assert (Eh : hheld s' = hheld s).
+  { apply hheld_same; [exact (inv_heap _ _ I)|rewrite (fd_next _ _ _ F1); lia|].
+    apply shared_of_host_at. exact (fd_host _ _ _ F1). }
   destruct T as [H1 H2 H3 H4 H5]. constructor.
   5: { rewrite Etr. exact H5. }
   - unfold reqd, futr. rewrite Etr, Esc. exact H1.
   - unfold reqd, deliv. rewrite Etr. fold (reqd s). fold (deliv s). rewrite H2.
-    apply Permutation_app_head. rewrite P. rewrite <- !app_assoc.
-    rewrite (app_assoc (ctoks (q_cb q))). rewrite (Permutation_app_comm (ctoks (q_cb q))). rewrite <- app_assoc. reflexivity.
+    apply Permutation_app_head. unfold held. rewrite Eh, P. perm_ac.
   - unfold amo. rewrite Etr. exact H3.
   - rewrite Esc. exact H4.
 Qed.
 
 Lemma tokinv_new_query s k qid q0 RC RF :
-  Inv s -> Own s (cobjs k) -> nohost k -> lookup qid (st_byqid s) = None ->
+  Inv s -> Own s (cobjs k) -> GivenOk s (kbot k) -> lookup qid (st_byqid s) = None ->
   q_cb q0 = k -> q_qid q0 = qid -> q_conn q0 = None ->
   let qo := st_next s in
   let s' := set_byqid ((qid, qo) :: st_byqid s) (set_lists (link_lists qo (st_lists s)) (alloc_st (CQuery q0) s)) in
@@ -344,18 +374,91 @@ Proof.
   destruct (new_query_ok s k qid q0 I O Hn Lk Ecb Eqid Ec) as [I' [_ [Hl' [Hq' [Hsame [_ [_ [_ [l1 [l2 [E1 E2]]]]]]]]]]].
   fold qo in Hq', Hsame, E2, Hl'. fold s' in I', Hq', Hsame, E2, Hl'.
   assert (Hqt : forall o, In o (linked s) -> qtoks s' o = qtoks s o).
-  { intros o Ho. destruct (inv_query _ _ I _ Ho) as [q1 [Hq1 _]]. unfold qtoks.
+  { intros o Ho. destruct (inv_query _ _ I _ Ho) as [q1 Hq1]. unfold qtoks.
     rewrite Hsame; auto. intros ->. pose proof (live_lt _ _ _ (inv_heap _ _ I) Hq1). unfold qo in *. lia. }
-  assert (P : Permutation (held s') (ctoks k ++ held s)).
-  { unfold held. rewrite E2, E1. rewrite perm_flat_map_insert. unfold qtoks at 1. rewrite Hq', Ecb.
+  assert (P : Permutation (qheld s') (ctoks k ++ qheld s)).
+  { unfold qheld. rewrite E2, E1. rewrite perm_flat_map_insert. unfold qtoks at 1. rewrite Hq', Ecb.
     apply Permutation_app_head. erewrite flat_map_ext_in'; [reflexivity|].
     intros o Ho. apply Hqt. rewrite E1. exact Ho. }
+  assert (Eh : hheld s' = hheld s).
+  { apply hheld_same; [exact (inv_heap _ _ I)|simpl; lia|]. intros o. unfold shared_at.
+    destruct (Nat.eq_dec o qo) as [->|Hne]; [|rewrite Hsame; auto].
+    rewrite Hq'. destruct (cell_of s qo) as [c|] eqn:Ec0; auto.
+    pose proof (live_lt _ _ _ (inv_heap _ _ I) Ec0). unfold qo in *. lia. }
   destruct T as [H1 H2 H3 H4 H5]. constructor; auto.
   change (reqd s') with (reqd s). change (deliv s') with (deliv s). rewrite H2.
-  apply Permutation_app_head. rewrite P. rewrite <- app_assoc.
-  rewrite (app_assoc (held s)). rewrite (Permutation_app_comm (held s)). rewrite <- app_assoc. reflexivity.
+  apply Permutation_app_head. unfold held. rewrite Eh, P. perm_ac.
 Qed.
 
 Lemma safe_both {A} (m : M A) s (Q1 Q2 : A -> state -> Prop) :
   safe m s Q1 -> safe m s Q2 -> safe m s (fun a s' => Q1 a s' /\ Q2 a s').
 Proof. unfold safe. destruct (m s) as [[a s']| |]; auto. Qed.
+
+(* ---------------------------------------------------------------------------------- *)
+(* host_query cells                                                                    *)
+(* ---------------------------------------------------------------------------------- *)
+Lemma held_host_store x s o h h' :
+  InvX x s -> cell_of s o = Some (CHost h) ->
+  let s' := store_st o (CHost h') s in
+  qheld s' = qheld s /\ exists A B, hheld s = A ++ htoks s o ++ B /\ hheld s' = A ++ htoks s' o ++ B.
+Proof.
+  intros I Hc s'.
+  assert (Hsame : forall o', o' <> o -> cell_of s' o' = cell_of s o').
+  { intros o' Hne. unfold s'. rewrite cell_store. apply Nat.eqb_neq in Hne. rewrite Hne. reflexivity. }
+  split.
+  - unfold qheld. change (linked s') with (linked s). apply flat_map_ext_in'. intros qo Hq.
+    unfold qtoks. rewrite Hsame; auto. intros ->. destruct (inv_query _ _ I _ Hq) as [q Hq']. congruence.
+  - apply hheld_upd; auto.
+    + exact (live_lt _ _ _ (inv_heap _ _ I) Hc).
+    + intros o' Hne. unfold shared_at. rewrite Hsame; auto.
+Qed.
+
+Lemma tokinv_host_store x s o h h' RC RC' RF :
+  InvX x s -> cell_of s o = Some (CHost h) ->
+  let s' := store_st o (CHost h') s in
+  Permutation (htoks s o ++ RC) (htoks s' o ++ RC') ->
+  TokInv s RC RF -> TokInv s' RC' RF.
+Proof.
+  intros I Hc s' P [H1 H2 H3 H4 H5].
+  destruct (held_host_store x s o h h' I Hc) as [Eq [A [B [EA EB]]]]. fold s' in Eq, EB.
+  constructor; auto.
+  change (reqd s') with (reqd s). change (deliv s') with (deliv s). rewrite H2.
+  apply Permutation_app_head. unfold held. rewrite Eq, EA, EB.
+  transitivity (qheld s ++ A ++ B ++ (htoks s o ++ RC)); [perm_ac|]. rewrite P. perm_ac.
+Qed.
+
+Lemma tokinv_host_share x s o h h' RC RF :
+  InvX x s -> cell_of s o = Some (CHost h) -> h_remaining h = 0 -> h_cb h' = h_cb h -> 0 < h_remaining h' ->
+  TokInv s (ctoks (h_cb h) ++ RC) RF -> TokInv (store_st o (CHost h') s) RC RF.
+Proof.
+  intros I Hc Hz Ecb Hp. apply (tokinv_host_store x s o h h'); auto.
+  assert (Hs' : shared_at (store_st o (CHost h') s) o = Some h').
+  { apply shared_intro; auto. rewrite cell_store, Nat.eqb_refl. reflexivity. }
+  unfold htoks. rewrite Hs'. unfold shared_at. rewrite Hc, Hz. simpl. rewrite Ecb. perm_ac.
+Qed.
+
+Lemma tokinv_host_unshare x s o h h' RC RF :
+  InvX x s -> shared_at s o = Some h -> h_cb h' = h_cb h -> h_remaining h' = 0 ->
+  TokInv s RC RF -> TokInv (store_st o (CHost h') s) (ctoks (h_cb h) ++ RC) RF.
+Proof.
+  intros I Hs Ecb Hz. destruct (shared_host _ _ _ Hs) as [Hc _]. apply (tokinv_host_store x s o h h'); auto.
+  unfold htoks. rewrite Hs. unfold shared_at. rewrite cell_store, Nat.eqb_refl, Hz. simpl. reflexivity.
+Qed.
+
+Lemma tokinv_host_shared x s o h h' RC RF :
+  InvX x s -> shared_at s o = Some h -> h_cb h' = h_cb h -> 0 < h_remaining h' ->
+  TokInv s RC RF -> TokInv (store_st o (CHost h') s) RC RF.
+Proof.
+  intros I Hs Ecb Hp. destruct (shared_host _ _ _ Hs) as [Hc _]. apply (tokinv_host_store x s o h h'); auto.
+  assert (Hs' : shared_at (store_st o (CHost h') s) o = Some h').
+  { apply shared_intro; auto. rewrite cell_store, Nat.eqb_refl. reflexivity. }
+  unfold htoks. rewrite Hs, Hs', Ecb. reflexivity.
+Qed.
+
+Lemma tokinv_host_excl x s o h h' RC RF :
+  InvX x s -> cell_of s o = Some (CHost h) -> h_remaining h = 0 -> h_remaining h' = 0 ->
+  TokInv s RC RF -> TokInv (store_st o (CHost h') s) RC RF.
+Proof.
+  intros I Hc Hz Hz'. apply (tokinv_host_store x s o h h'); auto.
+  unfold htoks, shared_at. rewrite Hc, Hz, cell_store, Nat.eqb_refl, Hz'. reflexivity.
+Qed.
